@@ -225,8 +225,8 @@ theorem evOk_iff_disciplined : ∀ (b : List Step), evOk (events b) = discipline
     `bt.config` calls `loadConfigUnlessLoaded` before its first use, (b) the load assigns a fresh
     object unconditionally, (c) `Invoke` loads and applies the configuration before dispatching and
     `Configure` applies all three layers by plain assignment, (d) the long-lived objects have exactly
-    the fields the model accounts for and the library has no mutable package-level variable besides
-    the logger. -/
+    the fields the model accounts for and the library never writes a package-level variable after its
+    declaration, except the logger. -/
 theorem facts_process :
     (Foundation.Facts.tokenCfgEvents.splitBy (fun _ b => b ≠ "fn")).all (fun f => evOk (f.drop 2)) = true ∧
     Foundation.Facts.tokenLoadFresh = 1 ∧
@@ -242,7 +242,7 @@ theorem facts_process :
        "BatchCacheStub.batchReadeCache", "BatchCacheStub.invokeResultCache", "BatchCacheStub.Swaps",
        "BatchCacheStub.MultiSwaps", "TxCacheStub.BatchCacheStub", "TxCacheStub.txID",
        "TxCacheStub.txWriteCache", "TxCacheStub.events", "TxCacheStub.Accounting"] ∧
-    Foundation.Facts.packageVars = ["core/logger.lg"] := by
+    Foundation.Facts.packageVarsWritten = ["core/logger.lg"] := by
   decide
 
 /-! ### non-vacuity -/
